@@ -45,7 +45,8 @@ CONSTANTS
   Dev,            \* deviation switches
   MaxWork,        \* work bound
   NumK,           \* at most NumK numeric slots deviate from their sane value at once
-  Cross           \* TRUE: additionally every reference assignment x every single numeric deviation
+  Cross,          \* TRUE: additionally every reference assignment x every single numeric deviation
+  Uniform         \* value names v: additionally every reference assignment x (all numeric slots = v) - sums of extremes
 
 VARIABLES
   frag,      \* the fragment under analysis
@@ -101,6 +102,7 @@ Init ==
   /\ \/ refs \in [SlotNames(frag) -> frag.tgts] /\ nums = SaneNums(frag)
      \/ refs = DefaultRefs(frag) /\ nums \in AtMost(frag, NumK)
      \/ Cross /\ refs \in [SlotNames(frag) -> frag.tgts] /\ nums \in AtMost(frag, 1)
+     \/ \E v \in Uniform : refs \in [SlotNames(frag) -> frag.tgts] /\ nums = [n \in NumNames(frag) |-> v]
   /\ shift \in (IF frag.layoutlevel THEN BOOLEAN ELSE {FALSE})
   /\ phase = "run"
   /\ stack = <<Frame(frag.entry, -1, "entry")>>
